@@ -1,7 +1,7 @@
 (* Proofs/CompileNoPanic.v — C04: the no-panic ladder for compile2.
    The full statement is false on the model (finding F1, refuted below); the
    positive pieces are labelled individually. *)
-From Coq Require Import List NArith Lia Bool.
+From Coq Require Import List NArith Lia Bool Sorting.Sorted.
 From HB Require Import Peg.Peg Peg.Grammar Tpl.Compile Proofs.PegFacts.
 Import ListNotations.
 Open Scope N_scope.
@@ -96,3 +96,115 @@ Qed.
 
 Example line_col_example : line_col (`"ab" ++ [13; 10] ++ `"c" ++ [10] ++ `"de") 6 = (3, 1).
 Proof. reflexivity. Qed.
+
+(* ---------- (ii) slices do not panic when the spans are in range ---------- *)
+Lemma slice_some (s : str) a b : a <= b -> b <= len s ->
+  exists r, slice s a b = Some r /\ len r = b - a.
+Proof.
+  intros Hab Hb. unfold slice.
+  replace (a <=? b) with true by (symmetry; apply N.leb_le; assumption).
+  replace (b <=? len s) with true by (symmetry; apply N.leb_le; assumption).
+  cbn [andb]. eexists. split; [reflexivity|].
+  unfold len in *. rewrite firstn_length, skipn_length. lia.
+Qed.
+
+Lemma slice_none_iff (s : str) a b : slice s a b = None <-> ~ (a <= b /\ b <= len s).
+Proof.
+  unfold slice. destruct (N.leb_spec a b); destruct (N.leb_spec b (len s)); cbn [andb];
+    split; intros HH; try discriminate; try reflexivity; try lia; exfalso; apply HH; lia.
+Qed.
+
+Definition span_ok (src : str) (t : tok) : Prop := tk_start t <= tk_end t /\ tk_end t <= len src.
+
+Lemma span_str_ok src t site : span_ok src t -> exists s, span_str src t site = COk s.
+Proof.
+  intros [A B]. unfold span_str. destruct (slice_some src _ _ A B) as (r & E & _).
+  rewrite E. eexists. reflexivity.
+Qed.
+
+Lemma remove_at_some : forall (s : str) i, (i < length s)%nat ->
+  exists s', remove_at s i = Some s' /\ length s = S (length s').
+Proof.
+  induction s as [|c r IH]; intros i Hi; cbn [length] in Hi; [lia|].
+  destruct i as [|i]; cbn [remove_at].
+  - eexists. split; reflexivity.
+  - destruct (IH i) as (s' & E & L); [lia|]. rewrite E. eexists. split; [reflexivity|].
+    cbn [length]. lia.
+Qed.
+
+(* remove_escapes: the escape list is given last-first (rev escs); it is enough
+   that the starts are strictly decreasing along that list and all relative
+   indices are inside the text *)
+Lemma remove_escapes_ok : forall (escs_rev : list tok) (s : str) offset cs,
+  (forall e, In e escs_rev -> cs <= offset + tk_start e) ->
+  StronglySorted (fun a b => tk_start b < tk_start a) escs_rev ->
+  (forall e, In e escs_rev -> offset + tk_start e - cs < len s) ->
+  exists s', remove_escapes s offset cs escs_rev = COk s'.
+Proof.
+  induction escs_rev as [|e r IH]; intros s offset cs Hlo Hsort Hin; cbn [remove_escapes].
+  - eexists. reflexivity.
+  - assert (He : (N.to_nat (offset + tk_start e - cs) < length s)%nat).
+    { specialize (Hin e (or_introl eq_refl)). unfold len in Hin. lia. }
+    destruct (remove_at_some s _ He) as (s' & E & L). rewrite E.
+    inversion Hsort as [|x l Hs Hall]; subst.
+    apply IH; [intros; apply Hlo; right; assumption | assumption |].
+    intros e' He'. rewrite Forall_forall in Hall. specialize (Hall e' He').
+    pose proof (Hlo e' (or_intror He')). pose proof (Hlo e (or_introl eq_refl)).
+    specialize (Hin e (or_introl eq_refl)). unfold len in *. lia.
+Qed.
+
+(* raw_string: with no escapes it cannot panic; with escapes it cannot panic if
+   the raw_text span is not longer than the text and the escape tokens lie
+   inside the span, strictly ordered by start *)
+Lemma raw_string_plain_ok text a b : exists el, raw_string text None a b = COk el.
+Proof. unfold raw_string. cbn [cbind]. destruct a; [|destruct b]; eexists; reflexivity. Qed.
+
+Definition escapes_inside (p : tok) (escs : list tok) : Prop :=
+  StronglySorted (fun a b => tk_start a < tk_start b) escs /\
+  (forall e, In e escs -> tk_start p <= tk_start e /\ tk_start e < tk_end p).
+
+
+Lemma StronglySorted_app_single {A} (R : A -> A -> Prop) l x :
+  StronglySorted R l -> Forall (fun y => R y x) l -> StronglySorted R (l ++ [x]).
+Proof.
+  induction 1 as [|y l Hs IH Hall]; intros Hf; cbn [app].
+  - constructor; constructor.
+  - inversion Hf; subst. constructor; [apply IH; assumption|].
+    apply Forall_app. split; [assumption | constructor; [assumption|constructor]].
+Qed.
+
+Lemma StronglySorted_rev {A} (R : A -> A -> Prop) l :
+  StronglySorted R l -> StronglySorted (fun a b => R b a) (rev l).
+Proof.
+  induction 1 as [|x l Hs IH Hall]; cbn [rev]; [constructor|].
+  apply StronglySorted_app_single; [assumption|].
+  apply Forall_forall. intros y Hy. apply in_rev in Hy. rewrite Forall_forall in Hall. auto.
+Qed.
+
+Lemma raw_string_ok text p escs a b :
+  tk_start p <= tk_end p -> tk_end p - tk_start p <= len text -> escapes_inside p escs ->
+  exists el, raw_string text (Some (p, escs)) a b = COk el.
+Proof.
+  intros Hp Hlen [Hsort Hin]. unfold raw_string.
+  replace (len text <? tk_end p - tk_start p) with false by (symmetry; apply N.ltb_ge; assumption).
+  destruct (remove_escapes_ok (rev escs) text (len text - (tk_end p - tk_start p)) (tk_start p))
+    as (s' & E).
+  - intros e He. apply in_rev in He. destruct (Hin e He). lia.
+  - apply (StronglySorted_rev _ _ Hsort).
+  - intros e He. apply in_rev in He. destruct (Hin e He). lia.
+  - rewrite E. cbn [cbind]. destruct a; [|destruct b]; eexists; reflexivity.
+Qed.
+
+Lemma process_standalone_ok src ts t pi ip :
+  tk_start t <= len src -> tk_end t <= len src -> ts <> [] ->
+  exists b ts', process_standalone_statement src ts t pi ip = COk (b, ts') /\ length ts' = length ts.
+Proof.
+  intros Hs He Hts. unfold process_standalone_statement, suffix_from, prefix_to.
+  destruct (slice_some src (tk_end t) (len src)) as (k & E1 & _); [assumption|lia|]. rewrite E1.
+  match goal with |- context [if ?c then _ else _] => destruct c end.
+  - destruct (slice_some src 0 (tk_start t)) as (k2 & E2 & _); [lia|assumption|]. rewrite E2.
+    destruct (pi && ends_with_empty_line k2).
+    + destruct ts as [|t0 r]; [congruence|]. cbn [cbind]. eexists _, _. split; reflexivity.
+    + cbn [cbind]. eexists _, _. split; reflexivity.
+  - eexists _, _. split; reflexivity.
+Qed.
